@@ -243,6 +243,8 @@ def run(tier, seed):
     rng = chk.rng
     quick = tier == "quick"
     pool = build_pool(rng, quick)
+    spy = fw.GlobalStateSpy()
+    spy.__enter__()
     O = oracle.Oracle()
     R = fw.Runner(O) if br.runner_ok else None
     # all registration specs share the substituted anchors of PKI "A" and the clock T0
@@ -352,6 +354,9 @@ def run(tier, seed):
         chk.violation(f"thread {tid}: call {key} gave another outcome than single-threaded", f"thread-interference {key.split('/')[0]}", {"call": key, "threaded": out, "single": ref, "arg_violations": viol})
     if R:
         R.close()
+    spy.__exit__(None, None, None)
+    spy.report(chk)
+    chk.notes.append({"global_state_spy": {"functions_watched": len(spy.saved), "calls_from_library_code": len(spy.calls)}})
     fw.env_invariance(chk, "auth", "reg")          # the same seeded cases under -O / -OO, warnings-as-errors, other TZ / locale, a private CA bundle
     return fw.finish(chk, ob, br, TRUSTED,
                      ["outcome = result fields or exception class bucket; option-generation outcomes are compared through options_to_json with caller-supplied challenge / user id (no randomness)"],
